@@ -164,7 +164,7 @@ pub fn run(ctx: &Ctx) -> PropResult {
             1 => hi - rng.range_i128(0, 2 * D),
             2 => {
                 let day = super::c09::gen_c09_instant(rng).div_euclid(D).clamp(0, hi / D);
-                day * D + *rng.pick(&[0i128, D - 1, D - NS, 43_200 * NS, 1, 999_999_999, 10_000_000, 9_999_999])
+                day * D + if rng.chance(1, 2) { rng.below(86_400) as i128 * NS + crate::model::magic::subsec_near_power_of_ten(rng) as i128 } else { *rng.pick(&[0i128, D - 1, D - NS, 43_200 * NS, 1, 999_999_999, 10_000_000, 9_999_999]) }
             }
             _ => rng.range_i128(lo, hi),
         }
